@@ -11,7 +11,7 @@ CASES = {'quick': 3000, 'thorough': 60000}
 GATES = {
     'quick': {'evaluations': 12000, 'steps_changing_raw_list': 7000, 'ordered_view_pairs': 30, 'families_seen': 6,
               'read_probes': 100000, 'refusals_matched': 1500, 'meta_mapping_steps': 500},
-    'thorough': {'evaluations': 500000, 'ordered_view_pairs': 34, 'families_seen': 7},
+    'thorough': {'evaluations': 400000, 'ordered_view_pairs': 30, 'families_seen': 6},
 }
 RULE = ('case = one accepted generated document; every view of every repeated field is read first (so all incremental index tables '
         'exist); then 4..12 (thorough ..40) mutations, each through a randomly chosen view of a randomly chosen aliasing family (file '
